@@ -306,6 +306,12 @@ def analyse(inst, r):
     short = {c: (len(holders[c]), min(inst["k"], len(comp_of[owner[c]]) - 1)) for c in comps
              if len(holders[c]) < min(inst["k"], len(comp_of[owner[c]]) - 1)}
     S["level_short_of_reachable"] = short
+    if short:
+        # every agent of these instances has ample capacity, so each computation must get min(k, agents its owner can reach)
+        # replicas; fewer means a later removal can leave it without any surviving replica although the premise held
+        P.append(("replication-level-not-reached-with-ample-capacity",
+                  "replication reported done with fewer replicas than possible {computation: (placed, reachable)}: %r (k=%d, mapping %r, holders %r)" % (
+                      short, inst["k"], mapping, {c: holders[c] for c in short})))
     if len(reports) == 0:
         if not S["in_scope"]:
             # some orphaned computation had no surviving replica: outside the property's premise; nothing was reported OK
